@@ -442,11 +442,12 @@ theorem enqueueTargets_spec {c : Ctx} {fm : List FirstSet} {E0 : Nat → Sym Nat
     intro b b' inv hi _ h
     simp only [enqueueTargets] at h
     cases h
-    exact { inv with done := fun i' hi' hq X' hX' => by
-              rcases inv.done i' hi' hq X' hX' with (h | ⟨_, k, hk, _⟩) | h
-              · exact Or.inl h
-              · cases hk
-              · exact Or.inr h }
+    refine ⟨inv.nonempty, inv.good, inv.queue, inv.trans, inv.zero, ?_⟩
+    intro i' hi' hq X' hX'
+    rcases inv.done i' hi' hq X' hX' with (h | ⟨_, k, hk, _⟩) | h
+    · exact Or.inl h
+    · cases hk
+    · exact Or.inr h
   | cons k ks ih =>
     intro b b' inv hi hks h
     simp only [enqueueTargets] at h
@@ -496,7 +497,7 @@ theorem mem_symbolsRightOfDot {c : Ctx} {S : State} {k : Nat} :
   · rintro ⟨x, hx, h⟩
     cases hs : symRightOfDot c x with
     | none => rw [hs] at h; cases h
-    | some X => rw [hs] at h; cases h; exact ⟨x, hx, X, rfl, rfl⟩
+    | some X => rw [hs] at h; cases h; exact ⟨x, hx, X, hs, rfl⟩
   · rintro ⟨x, hx, X, hs, rfl⟩
     exact ⟨x, hx, by rw [hs]; rfl⟩
 
